@@ -1139,4 +1139,61 @@ theorem runHistory_spec {st : Storable K V} {proj : V → P} {ok : K → V → K
     have : obs st proj (runBatch st (afterTx f c) kv ops).2 = ops.foldl (specOp proj g) (obs st proj kv) := funext h2
     rw [this]
 
+/-! ### order of the persist steps of a write path -/
+
+/-- the persist-relevant steps of an index write path after its own Put / Delete calls -/
+inductive Phase where
+  | fit     -- the vector store's `Fit`: every live cached value is rewritten in place
+  | flush   -- `Flush`
+  deriving Repr, DecidableEq
+
+/-- run the steps in the given order; `f` is the rewrite `Fit` performs -/
+def runPhases (st : Storable K V) (f : K → V → V) : List Phase → Cache K V × KV → Cache K V × KV
+  | [], s => s
+  | .fit :: r, s => runPhases st f r ({ s.1 with items := mapLive f s.1.items }, s.2)
+  | .flush :: r, s => runPhases st f r (flush st s.1 s.2)
+
+/-- the call names extracted from the source (`Generated/FactsC08.lean`), read as phases -/
+def phasesOfNames : List String → List Phase
+  | [] => []
+  | n :: r => if n = "fit" then .fit :: phasesOfNames r else if n = "flush" then .flush :: phasesOfNames r else phasesOfNames r
+
+/-! ### lifetime of the byte slices the storage layer hands out -/
+
+/-- what a `ReadFrom` keeps of one byte slice handed out by `bucket.Get` / a scan callback -/
+inductive Held where
+  | own (b : Bytes)      -- a private copy (`copy`, `BytesToFloat32`, `BytesToEdgeList`, `bytes.Clone`, a decoder)
+  | alias (key : Bytes)  -- the slice itself: memory that belongs to the transaction which served `key`
+  deriving Repr, DecidableEq
+
+/-- the bytes a kept slice reads as, given what the memory behind the aliases holds *now* -/
+def Held.bytes (mem : Bytes → Option Bytes) : Held → Option Bytes
+  | .own b => some b
+  | .alias k => mem k
+
+/-- the byte-level side of a `Storable.ReadFrom`: which slices the cached value keeps (`none` =
+ErrNotFound) and how the observation-relevant projection is decoded from their bytes -/
+structure BRead (K P : Type) where
+  keep : K → KV → Option (List Held)
+  decode : List (Option Bytes) → P
+
+/-- the projection of a cached value when the memory behind its aliases reads as `mem` -/
+def BRead.projAt (r : BRead K P) (mem : Bytes → Option Bytes) (hs : List Held) : P :=
+  r.decode (hs.map (Held.bytes mem))
+
+/-- …inside the transaction that read it: an alias reads the bucket itself -/
+def BRead.projNow (r : BRead K P) (kv : KV) (hs : List Held) : P := r.projAt (fun k => kv.get k) hs
+
+/-- the requirement on a `ReadFrom` whose result is cached across transactions: everything it keeps
+is a copy -/
+def BRead.Copies (r : BRead K P) : Prop :=
+  ∀ id kv hs, r.keep id kv = some hs → ∀ h, h ∈ hs → ∃ b, h = Held.own b
+
+theorem held_bytes_own {hs : List Held} (h : ∀ x, x ∈ hs → ∃ b, x = Held.own b) (m₁ m₂ : Bytes → Option Bytes) :
+    hs.map (Held.bytes m₁) = hs.map (Held.bytes m₂) := by
+  apply List.map_congr_left
+  intro x hx
+  obtain ⟨b, rfl⟩ := h x hx
+  rfl
+
 end Sema.C08
